@@ -9,6 +9,12 @@ using Cfg = CFG;
 using Wd = world::W<Cfg>;
 using S = Wd::S;
 
+// a registered struct whose image under the WIDE ABI is larger (8 bytes) and under the NARROW ABI smaller (2) than the application's 4
+struct Pair { short a; short b; };
+#define sandbox_fields_reflection_c10e_class_Pair(f, g, ...) f(short, a, FIELD_NORMAL, ##__VA_ARGS__) g() f(short, b, FIELD_NORMAL, ##__VA_ARGS__) g()
+#define sandbox_fields_reflection_c10e_allClasses(f, ...) f(Pair, c10e, ##__VA_ARGS__)
+rlbox_load_structs_from_library(c10e);
+
 static uint64_t n_ok = 0;
 static void report(const char* op, const char* tn, const char* cls, const std::string& d) { mon::violation(mon::fmt("C10/%s/%s/%s", op, tn, cls), d); }
 
@@ -67,6 +73,37 @@ static void probe(Wd::sbx& sb, const char* tn, mon::Rng& rng)
   }
 }
 
+// unverified_safe_pointer_because(count): "a raw pointer handed back together with an element count really has that many
+// whole elements inside the sandbox".  The elements a tainted pointer designates are sandbox objects (that is how [], +, ->
+// and malloc_in_sandbox count them), so a count whose last sandbox element ends behind the region must abort, whatever the
+// application's sizeof says; a count for which both layouts fit must be accepted.  (In between either answer is allowed.)
+template<typename T>
+static void usp_probe(Wd::sbx& sb, const char* tn, size_t gsz, mon::Rng& rng)
+{
+  const uint64_t rsize = Wd::size(sb);
+  const size_t hsz = sizeof(T);
+  std::vector<uint64_t> starts = { 16, gsz * 3, rsize - gsz, rsize - 7 * gsz, (rsize / 2 / gsz) * gsz };
+  for (int i = 0; i < mon::tier(4, 40); i++) starts.push_back(gsz * rng.below(rsize / gsz));
+  for (uint64_t off : starts) {
+    uint64_t room_g = (rsize - off) / gsz, room_h = (rsize - off) / hsz;
+    std::vector<uint64_t> counts = { 1, 2, room_g - 1, room_g, room_g + 1, room_h - 1, room_h, room_h + 1, room_g * 2, room_h * 2, (room_g + room_h) / 2 };
+    for (uint64_t c : counts) {
+      if (c == 0) continue;
+      bool legal_g = c <= room_g, legal_h = c <= room_h;
+      auto p = Wd::template tptr<T>(sb, off);
+      mon::ctx("unverified_safe_pointer_because/%s | base+%llu count=%llu", tn, (unsigned long long)off, (unsigned long long)c);
+      mon::distinct(mon::mix(mon::mix(std::hash<std::string>()(tn), off), c));
+      const void* raw = nullptr;
+      bool ab = mon::aborts([&] { raw = p.unverified_safe_pointer_because(c, "monitor"); });
+      mon::evals();
+      std::string what = mon::fmt("%s: unverified_safe_pointer_because<%s*>(start=base+%llu, count=%llu): sandbox element %zu bytes (room for %llu), application element %zu bytes (room for %llu)", Cfg::name, tn,
+                                  (unsigned long long)off, (unsigned long long)c, gsz, (unsigned long long)room_g, hsz, (unsigned long long)room_h);
+      if (!legal_g) { if (!ab) report("unverified_safe_pointer_because", tn, "count-exceeds-whole-sandbox-elements", what); else n_ok++; }
+      else if (legal_h) { if (ab || raw != reinterpret_cast<const void*>(Wd::base(sb) + off)) report("unverified_safe_pointer_because", tn, "legal-request-aborted", what); else n_ok++; }
+    }
+  }
+}
+
 int main(int argc, char** argv)
 {
   mon::init("C10", argc, argv);
@@ -80,6 +117,11 @@ int main(int argc, char** argv)
   probe<char16_t>(sb, "char16_t", rng);
   probe<float>(sb, "float", rng);
   probe<double>(sb, "double", rng);
+  usp_probe<Pair>(sb, "struct{short,short}", sizeof(tainted_volatile<Pair, S>) == 2 * sizeof(ref::guest_t<Cfg, short>) ? 2 * sizeof(ref::guest_t<Cfg, short>) : 0, rng);
+  usp_probe<short[6]>(sb, "short[6]", 6 * sizeof(ref::guest_t<Cfg, short>), rng);
+  usp_probe<long[3]>(sb, "long[3]", 3 * sizeof(ref::guest_t<Cfg, long>), rng);
+  usp_probe<short>(sb, "short", sizeof(ref::guest_t<Cfg, short>), rng);
+  usp_probe<long>(sb, "long", sizeof(ref::guest_t<Cfg, long>), rng);
   mon::hit("element-semantics-preserved", n_ok);
   mon::distinct(0xe1e); mon::distinct(0xe1f);
   sb.destroy_sandbox();
